@@ -96,7 +96,7 @@ func startTagLines(src, tag string, occurrence int) (int, int) {
 }
 
 func runC17(res *Result, tier string, seed int64, replay string) {
-	res.Rule = "(1) EXHAUSTIVE matrix: every body component in a legal context × every attribute name from the union of all known names + invented ones (bogus, data-x, aria-y, class, css-class, mj-class, empty-looking names): error reported ⇔ the Spec (JSON table + always-accepted names) rejects, exactly one detail for the offending (tag, attribute), nothing else; HTML equal to the HTML of the same document without the attribute when the attribute is invalid. (2) seeded grammar documents with 1–4 invalid attributes injected at random elements, multi-line start tags, void HTML tags inside mj-text written over several lines, documents preceded by comments and blank lines: every reported line must lie within the lines of that element's start tag in the ORIGINAL input; details = injected set. (3) line lookup: real lineLookup (verif export) vs 1 + count of newlines, offsets queried in random order. Non-trivial = cell or document with an offending attribute; distinct by cell / source"
+	res.Rule = "(1) EXHAUSTIVE matrix: every body component in a legal context × every attribute name from the union of all known names + invented ones (bogus, data-x, aria-y, class, css-class, mj-class, empty-looking names): error reported ⇔ the Spec (JSON table + always-accepted names) rejects, exactly one detail for the offending (tag, attribute), nothing else; HTML equal to the HTML of the same document without the attribute when the attribute is invalid. (2) seeded grammar documents with 1–4 invalid attributes injected at random elements, multi-line start tags, three layouts (one element per line, the whole document on one line, the first elements on the line of the root), void HTML tags inside mj-text written over several lines, documents preceded by comments and blank lines: every reported line must lie within the lines of that element's start tag in the ORIGINAL input; details = injected set. (3) line lookup: real lineLookup (verif export) vs 1 + count of newlines, offsets queried in random order. Non-trivial = cell or document with an offending attribute; distinct by cell / source"
 	// ---- (1) matrix
 	names := map[string]bool{}
 	for _, t := range bodyTags {
@@ -215,7 +215,18 @@ func runC17(res *Result, tier string, seed int64, replay string) {
 				poisoned[e] = append(poisoned[e], a)
 			}
 			nl := r.Pick([]string{"\n", "\n", "\r\n"})
-			body := d.Print(PrintOpts{Indent: true, Newline: nl, AttrPerm: func(m int) []int { return r.Perm(m) }})
+			// layout: one element per line; the whole document on one line; or the first elements on the line of the root
+			layout := r.Pick([]string{"indent", "indent", "compact", "root-line"})
+			body := d.Print(PrintOpts{Indent: layout != "compact", Newline: nl, AttrPerm: func(m int) []int { return r.Perm(m) }})
+			if layout == "root-line" {
+				for j, k := 0, 1+r.Intn(4); j < k; j++ {
+					if at := strings.Index(body, ">"+nl); at >= 0 {
+						rest := strings.TrimLeft(body[at+1+len(nl):], " \t")
+						body = body[:at+1] + rest
+					}
+				}
+			}
+			res.Count("layout=" + layout)
 			// multi-line start tags: break before some attributes
 			if r.Bool(1, 2) {
 				body = strings.Replace(body, ` bogus="v"`, nl+`      bogus="v"`, -1)
